@@ -1636,7 +1636,7 @@ def stophist_impl(a):
         where = 'solve call %d of %d (%s after %d steps; conditions %s; calls so far %r)' % (len(ends), len([x for x in plan if x[0] != 'clear']), how, len(recs), ' '.join(cdesc), calls[:-1])
         for j, rec in enumerate(recs):
             final = j == len(recs) - 1 and how != 'ended-by-step-cap'
-            cls_ = ('coupled-update-skipped-on-final-step:%s' % how) if final else 'coupled-model-updates:stop-history:%s' % ('not-the-final-step' if j < len(recs) - 1 else how)
+            pos = how if j == len(recs) - 1 else 'not-the-final-step'
             at = '%s, host step %d (t = %r, stop flag %r%s)' % (where, rec['n'], rec['t'], rec['stop'], ', the step that ends the call' if final else '')
             got = [(n, k) for g_, n, k in log if g_ == rec['g']]
             want = [(rec['n'], k) for k in order]
@@ -1645,9 +1645,12 @@ def stophist_impl(a):
                 n_upd[k] += 1
                 if desc[k]['kind'] == 'grain':
                     exp_clock[k] += rec['dt']
+            # the class: the coupled update did not happen at the step that ends the call / anything else
+            skipped = final and got != want and len(got) < len(want)
             if got != want:
                 miss = [k for k in order if sum(1 for _, j_ in got if j_ == k) != 1]
-                fail(cls_, '%s: updateCoupledModel calls at this step: %r; attached: %r%s' % (at, got, ['%s #%d' % (cls[k], k) for k in order],
+                fail('coupled-update-skipped-on-final-step:%s' % how if skipped else 'coupled-model-updates:stop-history:%s' % pos,
+                     '%s: updateCoupledModel calls at this step: %r; attached: %r%s' % (at, got, ['%s #%d' % (cls[k], k) for k in order],
                      '; not updated: %r' % ['%s #%d' % (cls[k], k) for k in miss] if miss else ''), got, want)
             for k in order:
                 s_, kd = rec['states'][k], desc[k]['kind']
@@ -1656,16 +1659,17 @@ def stophist_impl(a):
                 if kd == 'strength':
                     wantr = n_upd[k] + 1
                     if s_ != (wantr, wantr, wantr):
-                        fail(cls_ if final else 'strength-history-misaligned:stop-history:%s' % ('not-the-final-step' if j < len(recs) - 1 else how),
+                        fail('coupled-update-skipped-on-final-step:%s' % how if skipped else 'strength-history-misaligned:stop-history:%s' % pos,
                              '%s: %s #%d has %d/%d/%d entries (rss/ls/ss) after %d host steps since its attachment' % ((at, cls[k], k) + s_ + (n_upd[k],)), list(s_), wantr)
                 elif kd == 'grain':
                     if not close(s_[2], exp_clock[k], 1e-9):
-                        fail(cls_ if final else 'grain-clock-misaligned:stop-history:%s' % ('not-the-final-step' if j < len(recs) - 1 else how),
+                        fail('coupled-update-skipped-on-final-step:%s' % how if skipped else 'grain-clock-misaligned:stop-history:%s' % pos,
                              '%s: clock of %s #%d is %r, the host clock %r (attached at %r)' % (at, cls[k], k, s_[2], rec['t'], t_attach[k]), s_[2], exp_clock[k])
                     elif s_[0] != s_[1] or not close(s_[3], 1.0, 1e-9):
                         fail('coupled-grain-volume:stop-history', '%s: %s #%d: time/avgR lengths %d/%d, grain volume %r' % (at, cls[k], k, s_[0], s_[1], s_[3]), s_[3], 1.0)
                 elif s_[0] != n_upd[k]:
-                    fail(cls_, '%s: recorder #%d saw %d host steps, attached for %d' % (at, k, s_[0], n_upd[k]), s_[0], n_upd[k])
+                    fail('coupled-update-skipped-on-final-step:%s' % how if skipped else 'coupled-model-updates:stop-history:%s' % pos,
+                         '%s: recorder #%d saw %d host steps, attached for %d' % (at, k, s_[0], n_upd[k]), s_[0], n_upd[k])
             if len(out) > n0:
                 ok = False; break
         if ok and recs:
@@ -1675,7 +1679,7 @@ def stophist_impl(a):
                 m = models[k]
                 if desc[k]['kind'] == 'strength' and t_attach[k] == 0.0 and k != late:
                     if not (len(m.rss) == len(m.ls) == len(m.solidStrength) == host.pData.n + 1):
-                        fail('coupled-update-skipped-on-final-step:%s' % how, '%s: after the call %s #%d has %d/%d/%d entries, pData.n + 1 = %d'
+                        fail('strength-history-misaligned:stop-history:after-solve-call:%s' % how, '%s: after the call %s #%d has %d/%d/%d entries, pData.n + 1 = %d'
                              % (where, cls[k], k, len(m.rss), len(m.ls), len(m.solidStrength), host.pData.n + 1), len(m.rss), host.pData.n + 1); ok = False
                     else:
                         row = [float(m.rssterm(host, p_)) for p_ in range(len(host.phases))]
@@ -1688,7 +1692,7 @@ def stophist_impl(a):
                         if len(tot) != len(host.pData.time[:hn + 1]) or not np.all(np.isfinite(tot)) or np.any(tot < 0):
                             fail('coupled-totalStrength', '%s: total strength of %s #%d over the history: %d entries for %d host rows, or negative / non-finite' % (where, cls[k], k, len(tot), hn + 1)); ok = False
                 elif desc[k]['kind'] == 'grain' and k != late and not close(float(m.time[-1]), host_time(host), 1e-9):
-                    fail('coupled-update-skipped-on-final-step:%s' % how, '%s: after the call the clock of %s #%d is %r, host clock %r' % (where, cls[k], k, float(m.time[-1]), host_time(host)),
+                    fail('grain-clock-misaligned:stop-history:after-solve-call:%s' % how, '%s: after the call the clock of %s #%d is %r, host clock %r' % (where, cls[k], k, float(m.time[-1]), host_time(host)),
                          float(m.time[-1]), host_time(host)); ok = False
         if not ok:
             break
